@@ -19,6 +19,8 @@ import traceback
 from concurrent.futures import ProcessPoolExecutor
 from fractions import Fraction
 
+sys.set_int_max_str_digits(0)  # exact rationals from the Lean driver can have thousands of digits
+
 ROOT = os.path.dirname(os.path.dirname(os.path.abspath(__file__)))
 LEAN_DIR = os.path.join(ROOT, "lean")
 REPO = os.environ.get("VERIF_REPO", "/repo")
